@@ -169,7 +169,11 @@ def parseTok (t : String) : Tok :=
   else if t == "default" then .kwDefault else if t == "%" then .percent else if t == "," then .comma
   else if t.startsWith "L:" then .lit (LitLex.lex (t.drop 2).toString)
   else if t.startsWith "P:" then .path (t.drop 2).toString
-  else if t.startsWith "B:" then .braces (parseFields (t.drop 2).toString)
+  else if t.startsWith "B:" then
+    -- `Tok.braces` is a body of *named* fields; a tuple-index member (`{ 0: 1.0 }`) is a different token tree, which the
+    -- macro rejects ("only supports named fields")
+    let fs := parseFields (t.drop 2).toString
+    if fs.all (fun f => match f.1.toList with | c :: _ => !c.isDigit | [] => false) then .braces fs else .other t
   else .other t
 
 /-- `syn::Lit` folds `-` + numeric literal into one negative literal -/
@@ -285,6 +289,15 @@ def runLine (st : Session) (line : String) : Session × String := Id.run do
       let x := Float32.ofBits (UInt32.ofNat (start + i * stride))
       h := fnv h (bits (e.calc x))
     return (st, toString h.toNat)
+  | "repcmp" =>
+    let (a, b) := (parseRepeat w[1]!, parseRepeat w[2]!)
+    let c := if Repeat.lt a b then "lt" else if Repeat.lt b a then "gt" else "eq"
+    let mx := if Repeat.lt b a then a else b          -- `Ord::max` returns the second argument when they compare equal
+    return (st, s!"{c} {c} {if Repeat.lt a b then 1 else 0} {if a == b then 1 else 0} {showRepeat mx}")
+  | "posdef" =>
+    let ts : TimeScale F := TimeScale.default
+    let outs := (w.toList.drop 1).map fun t => showPos (ts.position (fb t))
+    return (st, s!"{bits ts.delay} {bits ts.duration} {showRepeat ts.repeat_} {showOptDur ts.totalDuration} " ++ " ".intercalate outs)
   | "pos" =>
     let ts := tsOf w 1
     let outs := (w.toList.drop 5).map fun t => showPos (ts.position (fb t))
@@ -521,6 +534,14 @@ def runLine (st : Session) (line : String) : Session × String := Id.run do
     let outs := st.worlds.map fun ow =>
       match ow, tl with
       | some wd, some m => (match m.update wd.compP (dec 1000000000 0) with | .ok c => showVals c | .error _ => "panic")
+      | some wd, none => showVals wd.compP
+      | none, _ => "panic"
+    return (st, " || ".intercalate outs)
+  | "evalat" =>
+    let tl := ((st.slots.get? w[1]!.toNat!).bind asMerged).map (·.2)
+    let outs := st.worlds.map fun ow =>
+      match ow, tl with
+      | some wd, some m => (match m.update wd.compP (Num.secsOfNanos w[2]!.toNat!) with | .ok c => showVals c | .error _ => "panic")
       | some wd, none => showVals wd.compP
       | none, _ => "panic"
     return (st, " || ".intercalate outs)
